@@ -198,6 +198,83 @@ def defs_of(fn, var):
     return out
 
 
+class SizeHooks(QHooks):
+    """smtp_data() up to blast(), and put(): the size countdown as a function of databytes"""
+    def __init__(self):
+        self.armed = []
+        self.after = []
+
+    def tracked_global(self, path):
+        return path.startswith('$') or path in ('G:databytes', 'G:bytestooverflow', 'G:seenmail', 'G:rcptto.len')
+
+    def precise_arith(self, path):
+        return True
+
+    def prim_qmail_open(self, E, x, args):
+        return [Outcome(ret=fs(0))]
+
+    def _nop(self, E, x, args):
+        return [Outcome(ret=TOP)]
+
+    prim_qmail_qp = prim_out = prim_flush = prim_received = prim_qmail_put = prim_qmail_puts = _nop
+
+    def prim_blast(self, E, x, args):
+        self.armed.append((E.get('G:bytestooverflow'), E.trace.list()))
+        return 'noreturn'
+
+    def prim_qmail_fail(self, E, x, args):
+        E.set('$fail', fs(1))
+        return [Outcome(ret=TOP)]
+
+    def on_return(self, E, fn, val):
+        if fn.name == 'put':
+            v = E.get('$fail')
+            self.after.append((E.get('G:bytestooverflow'), 1 if v == fs(1) else 0))
+
+
+def smtpd_size_sites(db, rep):
+    """a message of n stored bytes is refused for size exactly when databytes != 0 and n > databytes"""
+    prog = db.program('qmail-smtpd')
+    sd = prog.fn('smtp_data', 'qmail-smtpd.c')
+    pf = prog.fn('put', 'qmail-smtpd.c')
+    out = {}
+    bad = None
+    for D in (0, 3):
+        H = SizeHooks()
+        e = Engine(db, prog, H)
+        st = {'G:databytes': fs(D), 'G:seenmail': fs(1), 'G:rcptto.len': fs(5)}
+        if D == 0:
+            st['G:bytestooverflow'] = fs(0)
+        e.run(sd, st)
+        rep.count_states(e.states, e.transitions)
+        if not H.armed:
+            raise AnalysisBroken('smtp_data: blast() not reached')
+        for bv, tr in H.armed:
+            if bv is TOP or len(bv) != 1:
+                bad = bad or ('databytes=%d: the countdown handed to blast() is not determined by databytes (left over from the previous message)' % D, tr)
+                continue
+            b = next(iter(bv))
+            first = None
+            for k in range(1, 8):
+                H2 = SizeHooks()
+                e2 = Engine(db, prog, H2)
+                fid = e2.frame_id(pf)
+                e2.run(pf, {'G:bytestooverflow': fs(b), '%s::%s' % (fid, pf.params[0]): fs(('&', 'CH'))})
+                rep.count_states(e2.states, e2.transitions)
+                if len(H2.after) != 1 or H2.after[0][0] is TOP or len(H2.after[0][0]) != 1:
+                    raise AnalysisBroken('put(): countdown not modelled')
+                b = next(iter(H2.after[0][0]))
+                if H2.after[0][1] and first is None:
+                    first = k
+            want = None if D == 0 else D + 1
+            if first != want:
+                bad = bad or ('databytes=%d: the first stored byte refused for size is byte %s (documented: %s): %s' %
+                              (D, first, want, 'a message of exactly databytes bytes is refused' if first is not None and want is not None and first < want else 'the limit is not enforced at databytes+1'), tr)
+    out['smtpd:size-refusal-exactly-from-stored-byte-databytes+1'] = (bad is None, 'qmail-smtpd.c:smtp_data/put', bad[0] if bad else '', bad[1] if bad else [])
+    return out
+
+
+
 def run(ctx):
     db, rep = ctx.db, ctx.report
     prog = db.program('qmail-smtpd')
@@ -409,16 +486,8 @@ def run(ctx):
     puts = deep_calls(prog, blf, 'qmail_put')
     r4.check(bool(puts) and all(counted_put(f, c) for f, c in puts), 'smtpd:body-bytes-are-counted-before-they-are-queued', 'qmail-smtpd.c:blast/put',
              'a body byte reaches qmail_put without the countdown if (bytestooverflow) if (!--bytestooverflow) qmail_fail before it')
-    arm = [x for x in sd.all_x() if x.k == 'asg' and x.args[0].path() == 'G:bytestooverflow']
-    oka = False
-    for x in arm:
-        rhs = x.args[1].strip()
-        if rhs.k == 'bin' and rhs.op == '+' and {rhs.args[0].path(), rhs.args[1].path()} & {'G:databytes'} and 1 in (rhs.args[0].const, rhs.args[1].const):
-            gg = sd.guards(x) or []
-            if any(branch_zero_test(c, t, lambda v: v.path() == 'G:databytes') == 'nonzero' for c, t in gg) and sd.can_reach(sd.pos[x.id][0], sd.pos[bl[0].id][0]) \
-                    and not sd.can_reach(sd.pos[bl[0].id][0], sd.pos[x.id][0]):
-                oka = True
-    r4.check(oka, 'smtpd:countdown-armed-with-databytes+1', sd.unit + ':smtp_data', 'bytestooverflow = databytes + 1 under if (databytes), before blast()')
+    for inst, v in sorted(smtpd_size_sites(db, rep).items()):
+        r4.check(v[0], inst, v[1], v[2], v[3])
 
     # qmtpd
     pm = db.program('qmail-qmtpd')
